@@ -74,13 +74,45 @@ Live(h) == h \in 1..Len(handles) /\ handles[h].alive
 JsonHandle(h) == Live(h) /\ handles[h].kind \in {"owner", "ref"}
 ValueOf(h) == IF handles[h].kind = "value" THEN handles[h].val ELSE At(docs[handles[h].root], handles[h].path)
 
-\* what the C API reports about handle h (the predicted observation)
+(* A stored number is its mathematical VALUE together with its C type: [t, v] names the value "token v of
+   type t" (MIN = least value of t, M1 = -1, ZERO, ONE, HALF = 2^(w-1) for an unsigned t of width w,
+   MAX = greatest value of t; floats: MIN/MAX = -/+ largest finite, TINY = smallest normal, FRAC = 0.1).
+   Reading it back must yield that value whatever type is asked for, as long as the value is representable
+   in the type asked for; the text form of the enclosing document must show that value.  Representability
+   is decided here, from the widths, so these reads are predictions of the spec.                       *)
+IntWidth(t) == CASE t \in {"i8", "u8"} -> 8 [] t \in {"i16", "u16"} -> 16 [] t \in {"i32", "u32"} -> 32 [] t \in {"i64", "u64"} -> 64
+IsSignedInt(t) == t \in {"i8", "i16", "i32", "i64"}
+IsUnsignedInt(t) == t \in {"u8", "u16", "u32", "u64"}
+IsFloat(t) == t \in {"f32", "f64"}
+IsNumberType(t) == IsSignedInt(t) \/ IsUnsignedInt(t) \/ IsFloat(t)
+\* is the value named by [t, v] representable (exactly) in int64 / uint64 / double ?
+RepI64(t, v) ==
+  CASE IsSignedInt(t)   -> TRUE
+    [] IsUnsignedInt(t) -> v \in {"ZERO", "ONE"} \/ IntWidth(t) < 64          \* 2^63 and 2^64-1 are not
+    [] IsFloat(t)       -> v \in {"ZERO", "ONE", "M1"}
+    [] OTHER -> FALSE
+RepU64(t, v) ==
+  CASE IsSignedInt(t)   -> v \in {"ZERO", "ONE", "MAX"}                       \* negative values are not
+    [] IsUnsignedInt(t) -> TRUE
+    [] IsFloat(t)       -> v \in {"ZERO", "ONE"}
+    [] OTHER -> FALSE
+RepF64(t, v) ==
+  CASE IsSignedInt(t)   -> v # "MAX" \/ IntWidth(t) - 1 <= 53                 \* 2^63 - 1 is not a double; -2^63 is
+    [] IsUnsignedInt(t) -> v # "MAX" \/ IntWidth(t) <= 53                     \* 2^64 - 1 is not a double; 2^63 is
+    [] IsFloat(t)       -> TRUE
+    [] OTHER -> FALSE
+ReadsOf(x) == IF IsNumberType(x.t) THEN [i64 |-> RepI64(x.t, x.v), u64 |-> RepU64(x.t, x.v), f64 |-> RepF64(x.t, x.v)]
+              ELSE [i64 |-> FALSE, u64 |-> FALSE, f64 |-> FALSE]
+
+\* what the C API reports about handle h (the predicted observation): tag, the value (token) read as the
+\* stored type, which wider reads must yield the same value (rd), and the whole value tree at the handle
+\* (val) -- what occaJsonDump of the handle must show
 ObsOf(h) ==
   LET x == ValueOf(h) IN
-  IF handles[h].kind = "value" THEN [h |-> h, tag |-> x.t, v |-> x.v, n |-> 0]
-  ELSE [h |-> h, tag |-> "json:" \o x.t, v |-> x.v, n |-> Len(x.kids)]
+  IF handles[h].kind = "value" THEN [h |-> h, tag |-> x.t, v |-> x.v, n |-> 0, rd |-> ReadsOf(None), val |-> x]
+  ELSE [h |-> h, tag |-> "json:" \o x.t, v |-> x.v, n |-> Len(x.kids), rd |-> ReadsOf(x), val |-> x]
 AllObs == LET L == {h \in 1..Len(handles) : handles[h].alive} IN
-          [i \in 1..Len(handles) |-> IF i \in L THEN ObsOf(i) ELSE [h |-> i, tag |-> "dead", v |-> "", n |-> 0]]
+          [i \in 1..Len(handles) |-> IF i \in L THEN ObsOf(i) ELSE [h |-> i, tag |-> "dead", v |-> "", n |-> 0, rd |-> ReadsOf(None), val |-> None]]
 
 Record(step) == hist' = Append(hist, step)
 
@@ -249,7 +281,9 @@ LiveHandlesResolve ==
     (handles[h].alive /\ handles[h].kind # "value") =>
        /\ handles[h].root \notin gone
        /\ Exists(docs[handles[h].root], handles[h].path)
-\* store / load identity: right after a store, the location holds exactly the stored value (type and token)
+\* store / load identity: right after a store, the location holds exactly the stored value: the mathematical
+\* value AND its C type ([t, v], see ReadsOf); every later read (as the stored type, as a wider type in which
+\* the value is representable, or as text) is a function of that pair only
 StoreLoadIdentity ==
   hist # <<>> =>
     LET s == hist[Len(hist)] IN
